@@ -268,7 +268,7 @@ def varLoop (vs : Vars F) (startIdx : Nat) : Nat → List (TokInfo F) → List (
 
 /-- `update_token_variables` -/
 def updateTokenVariables (vs : Vars F) (infos : List (TokInfo F)) : List (TokInfo F) :=
-  varLoop vs (varStartIndex infos) (infos.length + 1) infos
+  varLoop vs (varStartIndex infos) (2 * infos.length + 1) infos
 
 /-- `TokenType::to_string` for the kinds a variable name can reasonably contain; other kinds are
     rendered with a marker (never produced by the generators) -/
